@@ -159,7 +159,9 @@ Mine(cs) == SelectSeq(cs, LAMBDA c : c[1] = Prop)             \* clauses are <<p
 FirstMine(cs) == IF Mine(cs) = <<>> THEN "ok" ELSE Mine(cs)[1][2]
 
 AttrsOf(x, ev) ==
-    CASE ev.e = "lasso" -> <<Cfg.alg, IF ev.ffs = 0 THEN "fresh-per-generation=0" ELSE "fresh-per-generation>0">>
+    CASE ev.e = "ret" /\ Prop = "C12" /\ x.done /\ ev.ind # 0 /\ HasFit(x.t, ev.ind)
+              /\ Agg(FitOf(x.t, ev.ind), Mini) = x.t.maxagg -> <<Cfg.alg, Cfg.step>>     \* returned-worse-than-evaluated
+      [] ev.e = "lasso" -> <<Cfg.alg, IF ev.ffs = 0 THEN "fresh-per-generation=0" ELSE "fresh-per-generation>0">>
       [] ev.e = "evalcall" -> <<"evaluator", IF Cfg.multi THEN "multi" ELSE "single", ev.evaluator>>
       [] OTHER -> <<Cfg.alg, IF Cfg.multi THEN "multi" ELSE "single", Cfg.evaluator>>
 
